@@ -322,7 +322,7 @@ decode_hex = Unit(
                      (r'a\[i/2\] = \(byte\)s\.substring\(i, i \+ 2\)\.hexToInt\(\);', '{ A_AT(i / 2); SUBSTRING_PRE(g_len, i, i + 2); g_writes++; }', 1), (r'return a;', 'return;', 1)],
               loops=[(r'for\s*\(', 0, '''
   __CPROVER_assigns(i, g_writes)
-  __CPROVER_loop_invariant(0 <= i && i <= g_len + 1 && i % 2 == 0 && g_writes == i / 2)
+  __CPROVER_loop_invariant(0 <= i && i <= g_len && i % 2 == 0 && g_writes == i / 2)
   __CPROVER_decreases(g_len + 2 - i)
 ''')])],
     text=r'''
@@ -343,3 +343,28 @@ void vf_harness(void) { decodeHex(); VF_CANARY(); }
     functions=['decodeHex'], trusted=['String::substring / hexToInt (strtoul) contracts'],
 )
 UNITS += [decode_hex]
+
+# the tail of decodeBase64 (after the decoding loop): the length given to the result is never negative
+b64_tail = Unit(
+    'decodeBase64_result_length', 'C15',
+    cuts=[Cut('tail', U, r'\t\t\ti = 0;\s*\}\s*\}\s*\n((?:.|\n)*?)\treturn result;\s*\}\s*#endif', kind='expr',
+              rules=[(r'int\(dest - result\.data\(\)\)', 'g_decoded', None), (r'result\.resize\(([^;]*)\);', r'VF_ARRAY_RESIZE(\1);', None)])],
+    text=r'''
+#include "vf_base.h"
+int g_decoded, g_newlen, g_resized;
+#define VF_ARRAY_RESIZE(m) { __CPROVER_assert((m) >= 0, "Array::resize: new length is non-negative"); g_newlen = (m); g_resized = 1; }
+void decodeBase64_tail(int e)
+/* e = number of '=' among the trailing non-alphabet characters, g_decoded = bytes written by the loop: ANY non-negative values (padding-only text has e > decoded) */
+__CPROVER_requires(0 <= e && e <= 1000000 && 0 <= g_decoded && g_decoded <= 1000000 && g_resized == 0)
+__CPROVER_ensures(g_resized && 0 <= g_newlen && g_newlen <= g_decoded)
+__CPROVER_assigns(g_newlen, g_resized)
+{
+  @@tail@@
+}
+void vf_harness(void) { int e; decodeBase64_tail(e); VF_CANARY(); }
+''',
+    entry='decodeBase64_tail',
+    desc='decodeBase64, final step: whatever the count of trailing "=" and of decoded bytes, the result length is >= 0 and <= the bytes decoded',
+    functions=['decodeBase64 (result length)'],
+)
+UNITS += [b64_tail]
